@@ -91,6 +91,19 @@ fn inner_programs() -> (Program, Program, Vec<Vec<u64>>) {
     (mk(5), mk(7), vec![vec![3, 200], vec![P - 1, 1]])
 }
 
+/// Second family: inner circuits that use lookup tables (the selected opening set then has non-empty
+/// `lookup_zs` / `next_lookup_zs`, and the proof carries the lookup polynomials); same tables in both
+/// circuits so that the common data agree, a different constant so that the circuit digests differ.
+fn inner_programs_lookup() -> (Program, Program, Vec<Vec<u64>>) {
+    use Op::*;
+    let mk = |k: u64| {
+        let mut p = Program::new(&format!("inner_lut_k{k}"), vec![Ty::B, Ty::B], vec![Lookup(0, 0), Lookup(1, 1), Lookup(2, 1), Add(2, 3), AddConst(4, k), Lookup(0, 0)]);
+        p.tables = vec![(0..8).map(|i| (i, (i + 3) % 8)).collect(), (0..30).map(|i| (i, (i * i) % 251)).collect()];
+        p
+    };
+    (mk(5), mk(7), vec![vec![2, 5], vec![7, 29]])
+}
+
 fn variants(ctx: &Ctx, s: &Subject, other_vo: &VO, all_leaves: bool) -> Vec<Variant> {
     let common = &s.built.data.common;
     let vo = s.built.data.verifier_only.clone();
@@ -168,10 +181,18 @@ fn cond_case(c: &Cond, cv: u64, a: &Variant, b: &Variant) -> Result<String, Stri
 
 fn conditional(ctx: &Ctx, thorough: bool) {
     let (pa, pb, ivs) = inner_programs();
+    conditional_family(ctx, thorough, "", &pa, &pb, &ivs);
+    let (pa, pb, ivs) = inner_programs_lookup();
+    conditional_family(ctx, thorough, ":lookups", &pa, &pb, &ivs);
+}
+
+fn conditional_family(ctx: &Ctx, thorough: bool, fam: &str, pa: &Program, pb: &Program, ivs: &[Vec<u64>]) {
+    let lookups = !fam.is_empty();
+    let (pa, pb, ivs) = (pa.clone(), pb.clone(), ivs.to_vec());
     let cfg = rec_config(2, 2, 1, 1, 2);
     let (Some(sa), Some(sb)) = (make_subject(ctx, &pa, &ivs, "condA", &cfg, 2), make_subject(ctx, &pb, &ivs, "condB", &cfg, 2)) else { return };
     if sa.built.data.common != sb.built.data.common {
-        ctx.machinery_error("the two inner circuits do not share their common data");
+        ctx.machinery_error(format!("the two inner circuits{fam} do not share their common data"));
         return;
     }
     if sa.built.data.verifier_only.circuit_digest == sb.built.data.verifier_only.circuit_digest {
@@ -193,7 +214,7 @@ fn conditional(ctx: &Ctx, thorough: bool) {
         (data, cond.target, pta, vta, ptb, vtb)
     });
     let Ok((data, cond, pta, vta, ptb, vtb)) = built else {
-        ctx.machinery_error("conditional outer circuit does not build");
+        ctx.machinery_error(format!("conditional outer circuit{fam} does not build"));
         return;
     };
     let sc = sat_prepare(&data);
@@ -210,33 +231,40 @@ fn conditional(ctx: &Ctx, thorough: bool) {
                 if cv == 2 && (i > 1 || j > 1) {
                     continue;
                 }
+                // lookup family: the cross (every variant against a valid partner) instead of the full square
+                if lookups && !thorough && i > 1 && j > 1 {
+                    continue;
+                }
                 cases.push((cv, i, j));
             }
         }
     }
     par_for_chunk(cases.len(), 4, |k| {
         let (cv, i, j) = cases[k];
-        let case = format!("conditional cond={cv} A={} B={}", va[i].name, vb[j].name);
-        ctx.case("conditional-square", &case, || {
+        let case = format!("conditional{fam} cond={cv} A={} B={}", va[i].name, vb[j].name);
+        ctx.case(&format!("conditional-square{fam}"), &case, || {
             ctx.transition(1);
             cond_case(&c, cv, &va[i], &vb[j])
         });
     });
     // every leaf of the selected / of the unselected proof
     let all_a = variants(ctx, &sa, &sb.built.data.verifier_only, true);
-    let step = if thorough { 1 } else { 2 };
+    let step = if thorough { 1 } else if lookups { 6 } else { 2 };
     let idx: Vec<usize> = (2..all_a.len()).step_by(step).collect();
     par_for_chunk(idx.len(), 4, |k| {
         let v = &all_a[idx[k]];
         for cv in [1u64, 0] {
-            let case = format!("conditional all-leaves cond={cv} A={} B=valid", v.name);
-            ctx.case(if cv == 1 { "conditional-selected-leaf" } else { "conditional-unselected-leaf" }, &case, || {
+            let case = format!("conditional{fam} all-leaves cond={cv} A={} B=valid", v.name);
+            ctx.case(&format!("{}{fam}", if cv == 1 { "conditional-selected-leaf" } else { "conditional-unselected-leaf" }), &case, || {
                 ctx.transition(1);
                 cond_case(&c, cv, v, &vb[0]).map(|cl| format!("{}:{}", if cv == 1 { "selected" } else { "unselected" }, cl))
             });
         }
     });
-    // _or_dummy variant
+    // _or_dummy variant (dummy circuits cannot be built for shapes with lookup tables: plain family only)
+    if lookups {
+        return;
+    }
     let built = guarded(|| {
         let mut builder = CircuitBuilder::<F, D>::new(outer_cfg.clone());
         let cond = builder.add_virtual_bool_target_safe();
